@@ -55,6 +55,36 @@ class AInt:
             return True
         return None
 
+class ALin:
+    """an integer known as a linear combination of whole input bytes: const + sum(coeff * byte), optionally reduced mod `mod`
+    (what a checksum is).  coeffs: {byte symbol (src, i): int}"""
+    __slots__ = ('coeffs', 'const', 'mod')
+    def __init__(self, coeffs=None, const=0, mod=None):
+        self.coeffs = {k: v for k, v in (coeffs or {}).items() if v}
+        self.const = const
+        self.mod = mod
+    def __repr__(self):
+        return f"ALin({len(self.coeffs)} bytes + {self.const}{' mod ' + str(self.mod) if self.mod else ''})"
+    def key(self):
+        return (tuple(sorted(self.coeffs.items(), key=repr)), self.const, self.mod)
+
+def as_lin(x):
+    """AInt / ALin -> ALin or None (an abstract int is linear only when it is exactly one whole input byte)"""
+    if isinstance(x, ALin):
+        return x
+    if isinstance(x, AInt):
+        if x.v is not None and isinstance(x.v, int):
+            return ALin({}, x.v)
+        v = x.vec()
+        if v is not None:
+            v = B.trim(v)
+            if len(v) == 8 and all(isinstance(b, tuple) and b[0] == v[0][0] and b[1] == k for k, b in enumerate(v)):
+                return ALin({v[0][0]: 1})
+            if 0 < len(v) <= 8 and any(isinstance(b, tuple) for b in v):
+                # a byte with arbitrary provenance: an opaque byte-valued symbol named by its bits
+                return ALin({('bits', tuple(v) + (0,) * (8 - len(v))): 1})
+    return None
+
 def sym_byte(src, i):
     return ('b', tuple(((src, i), k) for k in range(8)))
 
@@ -131,7 +161,9 @@ def norm_byte(vec):
     return ('b', tuple(v))
 
 class Interp:
-    def __init__(self, methods=None, hook=None, skip=None, max_steps=400000, classes=None):
+    def __init__(self, methods=None, hook=None, skip=None, max_steps=400000, classes=None, functions=None, cmp_oracle=None):
+        self.functions = functions or {}     # module-level function name -> FunctionDef: interpreted when called by name
+        self.cmp_oracle = cmp_oracle         # cmp_oracle(op, a, b, node) -> bool for a comparison of sums the domain cannot decide
         self.classes = classes or {}        # class name -> ClassDef: instantiated by interpreting __init__
         self.methods = methods or {}         # method name -> FunctionDef for calls on AObj receivers
         self.hook = hook                     # hook(interp, call, env) -> value | NotImplemented ; consulted before evaluating arguments
@@ -314,11 +346,17 @@ class Interp:
     def byte_to_int(self, b):
         if b[0] == 'c':
             return AInt(b[1])
+        if b[0] == 's':
+            return ALin(dict(b[1][0]), b[1][1], b[1][2])
         if b[0] == 'b':
             return AInt(None, list(b[1]))
         return AInt(None, None)
 
     def int_to_byte(self, x):
+        if isinstance(x, ALin):
+            if x.mod is not None and x.mod <= 256:
+                return ('s', x.key())
+            raise Unknown('byte built from an unreduced sum')
         if isinstance(x, AInt):
             if x.v is not None:
                 if not 0 <= x.v <= 255:
@@ -459,6 +497,13 @@ class Interp:
                 r = la in [x.literal() for x in b.items]
                 return r if isinstance(op, ast.In) else not r
             raise Unknown(f"membership on abstract values at line {getattr(node, 'lineno', 0)}")
+        if isinstance(a, ALin) or isinstance(b, ALin):
+            la, lb = as_lin(a), as_lin(b)
+            if la is not None and lb is not None and la.key() == lb.key() and isinstance(op, (ast.Eq, ast.NotEq)):
+                return isinstance(op, ast.Eq)
+            if self.cmp_oracle is not None and la is not None and lb is not None and isinstance(op, (ast.Eq, ast.NotEq)):
+                return self.cmp_oracle(op, la, lb, node)
+            raise Unknown(f"comparison of sums {a!r} {type(op).__name__} {b!r} at line {getattr(node, 'lineno', 0)}")
         if isinstance(a, AInt) and isinstance(b, AInt) and (a.v is None or b.v is None):
             s = a.same(b)
             if s is True and isinstance(op, (ast.Eq, ast.NotEq)):
@@ -485,6 +530,27 @@ class Interp:
     def binop(self, op, a, b):
         if isinstance(a, AOpaque) or isinstance(b, AOpaque):
             return AOpaque('binop')
+        if isinstance(a, ALin) or isinstance(b, ALin) or (isinstance(op, ast.Add) and isinstance(a, AInt) and isinstance(b, AInt) and (a.v is None or b.v is None)):
+            la, lb = as_lin(a), as_lin(b)
+            if la is not None and lb is not None:
+                if isinstance(op, (ast.Add, ast.Sub)) and la.mod is None and lb.mod is None:
+                    sg = 1 if isinstance(op, ast.Add) else -1
+                    co = dict(la.coeffs)
+                    for k, v in lb.coeffs.items():
+                        co[k] = co.get(k, 0) + sg * v
+                    return ALin(co, la.const + sg * lb.const)
+                if not lb.coeffs and lb.mod is None and la.mod is None and isinstance(lb.const, int):
+                    m = None
+                    if isinstance(op, ast.BitAnd) and lb.const > 0 and (lb.const + 1) & lb.const == 0:
+                        m = lb.const + 1
+                    if isinstance(op, ast.Mod) and lb.const > 0:
+                        m = lb.const
+                    if m is not None:
+                        return ALin({k: v % m for k, v in la.coeffs.items()}, la.const % m, m)
+                    if isinstance(op, ast.Mult):
+                        return ALin({k: v * lb.const for k, v in la.coeffs.items()}, la.const * lb.const)
+            if isinstance(a, ALin) or isinstance(b, ALin):
+                return AInt(None, None)
         if isinstance(a, ABytes) and isinstance(b, ABytes) and isinstance(op, ast.Add):
             return ABytes(a.items + b.items)
         if isinstance(a, AStr) and isinstance(b, AStr) and isinstance(op, ast.Add):
@@ -653,6 +719,8 @@ class Interp:
             if init:
                 self.call_function(init[0], [obj] + args, kw)
             return obj
+        if isinstance(f, ast.Name) and f.id in self.functions and f.id not in env:
+            return self.call_function(self.functions[f.id], args, kw)
         if isinstance(f, ast.Name):
             n = f.id
             if kw and n not in ('sorted', 'int', 'bytes', 'max', 'min', 'divmod') and n in ('len', 'range', 'bytearray', 'reversed', 'list', 'sum', 'enumerate', 'zip'):
@@ -739,8 +807,18 @@ class Interp:
                     return AList([self.byte_to_int(b) for b in x.items])
                 if isinstance(x, (range, tuple, list, ADict)):
                     return AList(self.iterate(x, e))
-            if n == 'sum':
+            if n == 'sum' and args:
                 x = args[0]
+                start = args[1] if len(args) > 1 else kw.get('start', AInt(0))
+                try:
+                    elems = self.iterate(x, e)
+                except Unknown:
+                    elems = None
+                if elems is not None:
+                    acc = start
+                    for el in elems:
+                        acc = self.binop(ast.Add(), acc, el)
+                    return acc
                 if isinstance(x, ABytes):
                     return AInt(None, None)
             return AOpaque(f"{n}()")
